@@ -83,7 +83,7 @@ def differs_once(tmpdir, item, h0, h1, n0, n1):
     if a is None or b is None or not a or not b:
         return False, None, None
     ra, rb = a[0][2], b[0][2]
-    if is_bad(ra) or is_bad(rb):
+    if ra in ('BUDGET', 'ALARM') or rb in ('BUDGET', 'ALARM'):
         return False, ra, rb
     return ra != rb, ra, rb
 
@@ -189,14 +189,23 @@ def main(args):
         digests.append([w, core.digest(ref)[:16]])
         # items unusable for comparison: budget / exception in ANY interpreter
         bad = set()
+        per_item = {}
         for h, (lg, nz) in logs.items():
             for idx, kind, res in lg:
                 if is_bad(res):
-                    bad.add(idx)
-                    if h == hs[0]:
-                        dropped[res] = dropped.get(res, 0) + 1
+                    per_item.setdefault(idx, {})[h] = res
+        for idx, byh in per_item.items():
+            vals = set(byh.values())
+            work_bound = any(v in ('BUDGET', 'ALARM') for v in vals)
+            if work_bound or (len(byh) == len(logs) and len(vals) == 1):
+                # work bound somewhere, or the SAME exception in every interpreter: never decides
+                bad.add(idx)
+                if hs[0] in byh:
+                    dropped[byh[hs[0]]] = dropped.get(byh[hs[0]], 0) + 1
+            # otherwise: an exception in some interpreters only (or different ones) is itself a process-to-process
+            # difference and is compared like any other output
         for idx, kind, res in ref:
-            if idx in bad:
+            if idx in bad or is_bad(res):
                 continue
             d = core.digest(items[idx])[:16]
             distinct.add(d)
